@@ -26,6 +26,26 @@ Theorem C18_transparent : forall b1 b2 P mb1 mb2 data chunks1 chunks2 ops, 0 < P
                   map snd tr1 = map snd tr2.
 Proof. exact transparent. Qed.
 
+(* an interrupted read() (-1 / EINTR) is one of the ways a read can return: util::PartialRead retries it, so the bytes
+   every reader obtains are those of the same run without the interruptions (exact, at PartialRead / ReadOrEOF /
+   ReadFactory's header), and the transcript of a run with interruptions anywhere -- also before the first byte --
+   agrees with the same specification transcript, with equal offsets and equal values *)
+Theorem C18_partial_read_retries_interrupts : forall amt data o l d o', partial_read amt data o = (l, d, o') ->
+  partial_read amt data (strip_interrupts o) = (l, d, strip_interrupts o').
+Proof. exact partial_read_interrupts. Qed.
+
+Theorem C18_header_read_ignores_interrupts : forall data o, open_fd data (strip_interrupts o) = strip_src (open_fd data o).
+Proof. exact open_fd_interrupts. Qed.
+
+Theorem C18_interrupts_invisible : forall b P mb data chunks ops, 0 < P ->
+  exists tr1 tr2, transcript repaired b P mb data chunks ops = Some tr1 /\
+                  transcript repaired b P mb data (strip_interrupts chunks) ops = Some tr2 /\
+                  Forall2 obs_agree (spec_run (length data) ops data) tr1 /\
+                  Forall2 obs_agree (spec_run (length data) ops data) tr2 /\
+                  map snd tr1 = map snd tr2 /\
+                  (forallb exact_op ops = true -> map fst tr1 = map fst tr2).
+Proof. exact interrupts_invisible. Qed.
+
 (* ReadLine / ReadDelimited / ReadWordSameLine / get / peek sequences: the results are EQUAL to the specification's *)
 Theorem C18_exact_ops_equal : forall b P min_buffer data chunks ops, 0 < P -> forallb exact_op ops = true ->
   exists tr, transcript repaired b P min_buffer data chunks ops = Some tr /\
